@@ -121,9 +121,6 @@ def run(model: RepoModel, rep, tier: str):
     rep.rule("C05.R4", "summarize_symbol_decls: visibility only flows from a scope to its ancestors (child sees parent, closure over what "
                        "is already visible, itself), both declaration tables are keyed by the owner scope with the same name, and every "
                        "named declaration kind is entered", min_instances=9)
-    rep.rule("C05.R5", "resolve_symbol_source_decl restricts the candidates to scopes that are both visible from the scope of the using "
-                       "statement and declare the name, takes the innermost (max), uses scope 0 only for `global`, and otherwise returns "
-                       "the unresolved marker (-1)", min_instances=5)
     rep.rule("C05.R6", "the def-use pass binds every named symbol through the resolver with the statement it occurs in and its own name; "
                        "`global` asks for the module scope; an unresolved name gets one fresh negative id per name", min_instances=5)
 
@@ -133,6 +130,7 @@ def run(model: RepoModel, rep, tier: str):
     _r4(model, rep, need["summarize_symbol_decls"], named_kinds)
     _r5(model, rep)
     _r6(model, rep)
+    _r7(model, rep)
 
 
 # ---------------------------------------------------------------------------------------------- R1
@@ -184,7 +182,7 @@ def _r1(model, rep, disc: Func, summ: Func):
                     open_kinds[kind] = c.lineno
                 if kwarg(c, "name") is not None:
                     named_kinds[kind] = c.lineno
-                key = f"{RID}::{SH}::{CLS}.discover_scopes::Scope(scope_kind={kind}) owner"
+                key = f"{SH}::{CLS}.discover_scopes::Scope(scope_kind={kind}) owner"
                 e = kwarg(c, "scope_id")
                 if e is None:
                     rep.violation(RID, key, SH, c.lineno, f"the {kind} row is created without a scope_id: the declaration has no owner scope")
@@ -222,7 +220,7 @@ def _r1(model, rep, disc: Func, summ: Func):
             if ks and any(_mutates(s, avname) for b in n.body for s in ast.walk(b)):
                 vis_kinds |= set(ks)
     for k, ln in sorted(open_kinds.items()):
-        key = f"{RID}::{SH}::{CLS}::scope kind {k} opens a scope and is visible-scope keyed"
+        key = f"{SH}::{CLS}::scope kind {k} opens a scope and is visible-scope keyed"
         if k in vis_kinds:
             rep.holds(RID, key, SH, ln, "discover_scopes adds it to all_scope_ids; summarize_symbol_decls gives it a visible-scope entry")
         else:
@@ -281,7 +279,7 @@ def _r2(model, rep, det: Func):
     if not rec:
         raise AnalysisError(f"{det.ref}: no recursive step found")
     for c in rec:
-        key = f"{RID}::{SH}::{CLS}.determine_scope::recursive step"
+        key = f"{SH}::{CLS}.determine_scope::recursive step"
         a = c.args[0] if c.args else None
         if isinstance(a, ast.Attribute) and a.attr == "parent_stmt_id" and isinstance(a.value, ast.Name) and a.value.id in stmtvars:
             rep.holds(RID, key, SH, c.lineno, f"recurses on {norm(a)} (the parent of the statement asked about)")
@@ -290,7 +288,7 @@ def _r2(model, rep, det: Func):
                           f"the enclosing scope is searched at `{norm(a) if a is not None else ''}` instead of the statement's parent_stmt_id: "
                           f"the walk can leave the chain of enclosing statements and land in a sibling or inner scope")
     # own id only when the statement opens a scope
-    key = f"{RID}::{SH}::{CLS}.determine_scope::own id only for scope statements"
+    key = f"{SH}::{CLS}.determine_scope::own id only for scope statements"
     tests = [n for n in walk_no_nested(det.node) if isinstance(n, ast.If) and isinstance(n.test, ast.Compare)
              and any(is_self_attr(x, "all_scope_ids") for x in ast.walk(n.test))]
     if not tests:
@@ -357,7 +355,7 @@ def _r3(model, rep, cor: Func, disc: Func, owner_sets: Dict[str, bool]):
                 and isinstance(idef.args[0], ast.Attribute) and idef.args[0].attr == "stmt_id" and isinstance(idef.args[0].value, ast.Name):
             decl = idef.args[0].value.id
         what = f"{oset or '?'} -> {decl or '?'}"
-        key = f"{RID}::{SH}::{CLS}.correct_scopes::re-home {what}"
+        key = f"{SH}::{CLS}.correct_scopes::re-home {what}"
         if decl is None or owner is None:
             rep.unknown(RID, key, SH, st.lineno, f"re-homing statement `{norm(st)}` not in the recognised shape")
             continue
@@ -392,10 +390,23 @@ def _r3(model, rep, cor: Func, disc: Func, owner_sets: Dict[str, bool]):
                           f"that does not contain it")
         else:
             rep.holds(RID, key, SH, st.lineno, f"row and cache both moved to `{owner}`; `{decl}` comes from {chain_ok}")
+            # (d) only direct children of that block are re-homed
+            kd = key + "::direct children only"
+            guarded = _direct_child_guard(st, decl, enc)
+            if guarded:
+                rep.holds(RID, kd, SH, st.lineno, f"guarded by `{guarded}`")
+            elif (oset, decl) in NESTABLE:
+                rep.violation(RID, kd, SH, st.lineno,
+                              f"every `{decl}` found anywhere inside the block is moved into `{owner}`'s scope, not only the direct children "
+                              f"of the block: {NESTABLE[(oset, decl)]}")
+            else:
+                rep.unknown(RID, kd, SH, st.lineno,
+                            f"no direct-child restriction; whether a nested `{decl}` can occur inside this block is not decided (the "
+                            f"frontends hoist function expressions out of field and parameter blocks on the inputs tried)")
     if count == 0:
         raise AnalysisError(f"{cor.ref}: no re-homing statement found")
     for s, ln in sorted(seen_sets.items()):
-        key = f"{RID}::{SH}::{CLS}::owners in self.{s} open a scope"
+        key = f"{SH}::{CLS}::owners in self.{s} open a scope"
         if s not in owner_sets:
             rep.unknown(RID, key, SH, ln, f"self.{s} is not filled by discover_scopes' dispatch")
         elif owner_sets[s]:
@@ -405,6 +416,36 @@ def _r3(model, rep, cor: Func, disc: Func, owner_sets: Dict[str, bool]):
                           f"correct_scopes moves declarations into the statements of self.{s}, but discover_scopes no longer registers those "
                           f"statements in all_scope_ids: nothing inside them has that statement on its scope chain, so the moved "
                           f"declarations (parameters / fields / loop variables) are invisible to the code that uses them")
+
+
+# re-homings whose block can contain further declarations of the same kind nested inside other scopes (each confirmed by an input)
+NESTABLE = {
+    ("class_stmt_ids", "method_decl"): "a closure or lambda defined inside a method is a method_decl inside the class's methods block; filed "
+                                       "under the class it no longer sees the locals and parameters of the method that contains it",
+    ("class_stmt_ids", "class_decl"): "for A{B{C}} both A and B claim C and the iteration order of a set decides; C's name becomes visible in A",
+    ("for_stmt_ids", "variable_decl"): "`for (let i = (() => { let z = 0; return z })(); ...)`: z becomes a variable of the for statement",
+}
+
+
+def _direct_child_guard(st, decl: str, enc) -> Optional[str]:
+    """`if D.parent_stmt_id == X:` around the re-homing, or `if D.parent_stmt_id != X: continue` before it in the same loop body."""
+    def is_cmp(t, op):
+        return isinstance(t, ast.Compare) and len(t.ops) == 1 and isinstance(t.ops[0], op) and \
+            (_is_attr_of(t.left, decl, "parent_stmt_id") or _is_attr_of(t.comparators[0], decl, "parent_stmt_id"))
+    cur = st
+    while id(cur) in enc:
+        par = enc[id(cur)]
+        if isinstance(par, ast.If) and cur in par.body and is_cmp(par.test, ast.Eq):
+            return norm(par.test)
+        if isinstance(par, ast.For) and isinstance(par.target, ast.Name) and par.target.id == decl:
+            for s_ in par.body:
+                if s_ is cur:
+                    break
+                if isinstance(s_, ast.If) and is_cmp(s_.test, ast.NotEq) and any(isinstance(b, ast.Continue) for b in s_.body):
+                    return norm(s_.test) + " -> continue"
+            return None
+        cur = par
+    return None
 
 
 def _read_from_owner(cor: Func, st, decl: str, owner: str, enc) -> Optional[object]:
@@ -481,7 +522,7 @@ def _r4(model, rep, summ: Func, named_kinds: Dict[str, int]):
             b, ks = base_and_keys(n.func.value)
             if b == n2s and len(ks) == 1 and n.args:
                 found_n2s += 1
-                key = f"{RID}::{SH}::{CLS}.summarize_symbol_decls::{n2s}[name].add"
+                key = f"{SH}::{CLS}.summarize_symbol_decls::{n2s}[name].add"
                 name_keys.add(norm(ks[0]))
                 if _is_attr_of(n.args[0], row, "scope_id"):
                     rep.holds(RID, key, SH, n.lineno, f"a name is declared in the owner scope of its row ({row}.scope_id)")
@@ -494,7 +535,7 @@ def _r4(model, rep, summ: Func, named_kinds: Dict[str, int]):
             b, ks = base_and_keys(n.targets[0])
             if b == s2i and len(ks) == 2:
                 found_s2i += 1
-                key = f"{RID}::{SH}::{CLS}.summarize_symbol_decls::{s2i}[scope][name] ="
+                key = f"{SH}::{CLS}.summarize_symbol_decls::{s2i}[scope][name] ="
                 name_keys.add(norm(ks[1]))
                 if not _is_attr_of(ks[0], row, "scope_id"):
                     rep.violation(RID, key, SH, n.lineno,
@@ -508,7 +549,7 @@ def _r4(model, rep, summ: Func, named_kinds: Dict[str, int]):
                     rep.holds(RID, key, SH, n.lineno, f"[{row}.scope_id][name] = {row}.stmt_id")
     if not found_n2s or not found_s2i:
         raise AnalysisError(f"{summ.ref}: stores into the declaration tables not found")
-    key = f"{RID}::{SH}::{CLS}.summarize_symbol_decls::both tables use the same name"
+    key = f"{SH}::{CLS}.summarize_symbol_decls::both tables use the same name"
     if len(name_keys) == 1:
         rep.holds(RID, key, SH, summ.node.lineno, f"both tables are keyed by `{sorted(name_keys)[0]}`")
     else:
@@ -525,7 +566,7 @@ def _r4(model, rep, summ: Func, named_kinds: Dict[str, int]):
                 entered |= set(ks)
     rep.analysed["summarize_symbol_decls"] = {"declaration kinds entered": sorted(entered)}
     for k, ln in sorted(named_kinds.items()):
-        key = f"{RID}::{SH}::{CLS}::declaration kind {k} entered in the name tables"
+        key = f"{SH}::{CLS}::declaration kind {k} entered in the name tables"
         if k in entered:
             rep.holds(RID, key, SH, ln, "rows of this kind carry a name and are entered")
         elif k in NOT_A_BINDING:
@@ -566,7 +607,7 @@ def _r4(model, rep, summ: Func, named_kinds: Dict[str, int]):
             if b == av and len(ks) == 1 and n.args:
                 sites += 1
                 K, V = ks[0], n.args[0]
-                key = f"{RID}::{SH}::{CLS}.summarize_symbol_decls::{av}[{norm(K)}].{n.func.attr}({norm(V)})"
+                key = f"{SH}::{CLS}.summarize_symbol_decls::{av}[{norm(K)}].{n.func.attr}({norm(V)})"
                 if _is_attr_of(K, row, "stmt_id") and _is_attr_of(V, row, "scope_id"):
                     rep.holds(RID, key, SH, n.lineno, "a scope sees the scope that owns it (child -> parent)")
                 elif isinstance(K, ast.Name) and isinstance(V, ast.Name) and K.id == V.id:
@@ -581,7 +622,7 @@ def _r4(model, rep, summ: Func, named_kinds: Dict[str, int]):
                 # additions to the closure work-list must be scopes that are already visible
                 sites += 1
                 V = n.args[0]
-                key = f"{RID}::{SH}::{CLS}.summarize_symbol_decls::closure work-list {b}.add({norm(V)})"
+                key = f"{SH}::{CLS}.summarize_symbol_decls::closure work-list {b}.add({norm(V)})"
                 if isinstance(V, ast.Name) and V.id in elem_of:
                     rep.holds(RID, key, SH, n.lineno, f"`{V.id}` ranges over {av}[{norm(elem_of[V.id])}] (already visible)")
                 else:
@@ -598,7 +639,7 @@ def _r4(model, rep, summ: Func, named_kinds: Dict[str, int]):
             if b == av and len(ks) == 1:
                 sites += 1
                 K = ks[0]
-                key = f"{RID}::{SH}::{CLS}.summarize_symbol_decls::{av}[{norm(K)}] |= {norm(n.value)}"
+                key = f"{SH}::{CLS}.summarize_symbol_decls::{av}[{norm(K)}] |= {norm(n.value)}"
                 vb, vks = base_and_keys(n.value)
                 if not isinstance(n.op, ast.BitOr) or vb != av or len(vks) != 1:
                     rep.unknown(RID, key, SH, n.lineno, "closure step not in the form AV[k] |= AV[t]")
@@ -622,7 +663,7 @@ def _r4(model, rep, summ: Func, named_kinds: Dict[str, int]):
             if b == av and len(ks) == 1:
                 sites += 1
                 K, v = ks[0], n.value
-                key = f"{RID}::{SH}::{CLS}.summarize_symbol_decls::{av}[{norm(K)}] = {norm(v)}"
+                key = f"{SH}::{CLS}.summarize_symbol_decls::{av}[{norm(K)}] = {norm(v)}"
                 empty = isinstance(v, ast.Call) and call_name(v) == "set" and not v.args
                 selfset = isinstance(v, ast.Set) and len(v.elts) == 1 and norm(v.elts[0]) == norm(K)
                 if empty or selfset:
@@ -643,8 +684,10 @@ def _mutates_base(node, name: str) -> bool:
 
 
 # ---------------------------------------------------------------------------------------------- R5
-def _r5(model, rep):
-    RID = "C05.R5"
+def _r5(model, rep, RID="C05.R5"):
+    rep.rule(RID, "resolve_symbol_source_decl restricts the candidates to scopes that are both visible from the scope of the using "
+                       "statement and declare the name, takes the innermost (max), uses scope 0 only for `global`, and otherwise returns "
+                       "the unresolved marker (-1)", min_instances=5)
     f = model.func(RS, "Resolver.resolve_symbol_source_decl")
     params = f.params
     if len(params) < 4:
@@ -671,7 +714,7 @@ def _r5(model, rep):
                 and isinstance(n.value, ast.Call) and call_name(n.value) == "SourceSymbolScopeInfo"]
     dnames = set()
     for d in defaults:
-        key = f"{RID}::{where}::unresolved marker"
+        key = f"{where}::unresolved marker"
         args = d.value.args
         sid = args[1] if len(args) > 1 else kwarg(d.value, "source_symbol_id")
         if sid is None or (isinstance(sid, ast.UnaryOp) and isinstance(sid.op, ast.USub) and isinstance(sid.operand, ast.Constant)):
@@ -686,7 +729,7 @@ def _r5(model, rep):
     for r in walk_no_nested(fn):
         if isinstance(r, ast.Return):
             v = r.value
-            key = f"{RID}::{where}::return `{norm(v) if v is not None else 'None'}`"[:200]
+            key = f"{where}::return `{norm(v) if v is not None else 'None'}`"[:200]
             if isinstance(v, ast.Name) and v.id in dnames:
                 continue
             if isinstance(v, ast.Call) and call_name(v) == "self.organize_return_value":
@@ -699,12 +742,12 @@ def _r5(model, rep):
     lexical = 0
     for c in calls:
         if len(c.args) < 3:
-            rep.unknown(RID, f"{RID}::{where}::organize_return_value call", RS, c.lineno, "argument list not recognised")
+            rep.unknown(RID, f"{where}::organize_return_value call", RS, c.lineno, "argument list not recognised")
             continue
         S = c.args[1]
         Sx = expand(S)
         if isinstance(Sx, ast.Constant):
-            key = f"{RID}::{where}::global lookup uses the module scope"
+            key = f"{where}::global lookup uses the module scope"
             guard_ok = False
             for n in walk_no_nested(fn):
                 if isinstance(n, ast.If) and any(x is c for b in n.body for x in ast.walk(b)) and isinstance(n.test, ast.Compare) \
@@ -720,7 +763,7 @@ def _r5(model, rep):
                               "declaration table with a name it does not hold")
             continue
         lexical += 1
-        key = f"{RID}::{where}::innermost visible declaring scope"
+        key = f"{where}::innermost visible declaring scope"
         if not (isinstance(Sx, ast.Call) and isinstance(Sx.func, ast.Name) and Sx.func.id in ("max", "min") and Sx.args):
             if isinstance(Sx, ast.Subscript) and isinstance(Sx.value, ast.Call) and call_name(Sx.value) == "sorted":
                 rev = kwarg(Sx.value, "reverse")
@@ -738,6 +781,21 @@ def _r5(model, rep):
                 rep.unknown(RID, key, RS, c.lineno, f"selection `{norm(Sx)}` not recognised")
                 continue
         else:
+            kf = kwarg(Sx, "key")
+            if kf is not None and not (isinstance(kf, ast.Lambda) and isinstance(kf.body, ast.Name) and kf.args.args
+                                       and kf.body.id == kf.args.args[0].arg):
+                ktxt = norm(kf)
+                kx = expand(kf.body) if isinstance(kf, ast.Lambda) else kf
+                reads_decl = any(attr_chain_has(expand(x) if isinstance(x, ast.Name) else x, "scope_id_to_symbol_info")
+                                 for x in ast.walk(kf)) or "symbol_info" in ktxt or "decl" in ktxt
+                if reads_decl:
+                    rep.violation(RID, key, RS, c.lineno,
+                                  f"the candidate scope is chosen by `{ktxt[:100]}` (position of the declaration statement), not by nesting "
+                                  f"(scope id): a declaration that merely comes later in the file -- a top-level function defined after the "
+                                  f"function that has a parameter of the same name -- wins over the enclosing scope's own declaration")
+                else:
+                    rep.unknown(RID, key, RS, c.lineno, f"selection uses a key function `{ktxt[:80]}` that is not recognised")
+                continue
             if Sx.func.id == "min":
                 rep.violation(RID, key, RS, c.lineno,
                               f"`{norm(Sx)}` selects the smallest scope id, i.e. the outermost candidate: an inner declaration never shadows "
@@ -789,7 +847,7 @@ def _r5(model, rep):
             rep.holds(RID, key, RS, c.lineno,
                       f"max((visible({p_stmt})" + (f" | {' | '.join(extra)}" if extra else "") + f") & declaring({p_name}))")
         # the chosen scope and the asked name are what organize_return_value receives
-        key2 = f"{RID}::{where}::declaration read from the chosen scope under the asked name"
+        key2 = f"{where}::declaration read from the chosen scope under the asked name"
         if isinstance(c.args[2], ast.Name) and c.args[2].id == p_name:
             rep.holds(RID, key2, RS, c.lineno, "organize_return_value(unit, chosen scope, asked name, ...)")
         else:
@@ -800,7 +858,7 @@ def _r5(model, rep):
     # organize_return_value reads the declaration of exactly (scope, name)
     g = model.func(RS, "Resolver.organize_return_value")
     gp = g.params
-    key = f"{RID}::{RS}::Resolver.organize_return_value::declaration = table[scope][name]"
+    key = f"{RS}::Resolver.organize_return_value::declaration = table[scope][name]"
     hit = None
     for n in walk_no_nested(g.node):
         if isinstance(n, ast.Subscript) and isinstance(n.value, ast.Subscript) and attr_chain_has(n.value.value, "scope_id_to_symbol_info"):
@@ -849,7 +907,7 @@ def _r6(model, rep):
         gflag = kwarg(c, "source_symbol_must_be_global")
         gb = in_global_branch(c)
         label = "global" if gb is True else ("nonlocal" if gb is False else f"lookup #{i}")
-        key = f"{RID}::{where}::{label}"
+        key = f"{where}::{label}"
         if len(a) < 3:
             rep.unknown(RID, key, DU, c.lineno, "argument list not recognised")
             continue
@@ -896,7 +954,7 @@ def _r6(model, rep):
                 rep.violation(RID, key, DU, c.lineno, f"the answer of the resolver is never stored into `{sv}.symbol_id`")
 
     # unresolved names: fresh negative id per name
-    key = f"{RID}::{where}::unresolved names get one negative id per name"
+    key = f"{where}::unresolved names get one negative id per name"
     news = [c for c in walk_no_nested(f.node) if isinstance(c, ast.Call) and (call_name(c) or "").endswith("assign_new_unique_negative_id")]
     tests = [n for n in walk_no_nested(f.node) if isinstance(n, ast.If)
              and any(isinstance(x, ast.Compare) and isinstance(x.ops[0], ast.Lt) and isinstance(x.comparators[0], ast.Constant)
@@ -920,8 +978,124 @@ def _r6(model, rep):
                                                   "undeclared name become two different symbols")
 
 
+# ---------------------------------------------------------------------------------------------- R7
+IH = "basics/import_hierarchy.py"
+EDGE_KINDS_NOT_FOLLOWED_OK = {
+    "UNSOLVED_SYMBOL": "placeholder edge for a name that could not be resolved; there is nothing behind it to descend into",
+}
+
+
+def _r7(model, rep, RID="C05.R7"):
+    rep.rule(RID, "imported names: before the members of a matched module are read its own import statements have been analysed (in the "
+                  "wildcard branch and in the name branch alike, so the result does not depend on the order units are visited in), and "
+                  "descending an import path follows every kind of edge the import graph is built with (re-exported names included)", 4)
+    cls = model.module(IH).classes.get("ImportHierarchy")
+    if cls is None:
+        raise AnalysisError("ImportHierarchy vanished")
+    f = cls.methods.get("parse_import_path_from_module_worklist")
+    if f is None:
+        raise AnalysisError("ImportHierarchy.parse_import_path_from_module_worklist vanished")
+    where = f"{IH}::ImportHierarchy.parse_import_path_from_module_worklist"
+    # (a) on-demand analysis in every loop that visits candidate nodes before they are returned / descended into
+    loops = [n for n in walk_no_nested(f.node) if isinstance(n, ast.For) and isinstance(n.target, ast.Name)
+             and isinstance(n.iter, ast.Name) and "worklist" in n.iter.id]
+    if len(loops) < 2:
+        raise AnalysisError(f"{f.ref}: expected the wildcard loop and the name-matching loop over the work-list")
+    for i, lp in enumerate(loops):
+        v = lp.target.id
+        label = "wildcard branch" if any(isinstance(x, ast.Constant) and x.value == "*" for p_ in [lp] for x in ast.walk(_enclosing_if(f.node, lp) or lp)) and i == 0 else f"name branch #{i}"
+        key = f"{where}::{label}: a matched module's imports are analysed on demand"
+        calls = [c for c in ast.walk(lp) if isinstance(c, ast.Call) and call_name(c) == "self.analyze_unit_import_stmts" and c.args
+                 and _is_attr_of(c.args[0], v, "symbol_id")]
+        if calls:
+            rep.holds(RID, key, IH, calls[0].lineno, f"self.analyze_unit_import_stmts({v}.symbol_id) before the node's members are used")
+        else:
+            rep.violation(RID, key, IH, lp.lineno,
+                          f"the loop over `{lp.iter.id}` no longer analyses the import statements of a matched module before its members are "
+                          f"read: a name that the module re-exports (`from core import f` inside it) is found only if run() happened to "
+                          f"visit that module earlier -- binding depends on unit order, i.e. on file names")
+    # idempotence / termination of the on-demand analysis
+    g = cls.methods.get("analyze_unit_import_stmts")
+    key = f"{IH}::ImportHierarchy.analyze_unit_import_stmts::once per unit"
+    if g is None:
+        raise AnalysisError("ImportHierarchy.analyze_unit_import_stmts vanished")
+    first = [s_ for s_ in g.node.body if not (isinstance(s_, ast.Expr) and isinstance(s_.value, ast.Constant))][:2]
+    ok = len(first) == 2 and isinstance(first[0], ast.If) and any(isinstance(b, ast.Return) for b in first[0].body) \
+        and "analyzed_imported_unit_ids" in norm(first[0].test) and "analyzed_imported_unit_ids.add" in norm(first[1])
+    (rep.holds if ok else rep.unknown)(RID, key, IH, g.node.lineno,
+                                       "membership test, then the unit is marked before its imports are followed (cyclic imports end)" if ok else
+                                       "guard shape not recognised")
+    # (b) edge kinds produced vs followed
+    produced: Dict[str, int] = {}
+    for h in cls.methods.values():
+        for c in walk_no_nested(h.node):
+            if isinstance(c, ast.Call) and call_name(c) == "self.add_import_graph_edge":
+                k = kwarg(c, "edge_kind")
+                produced[_attr_tail(k) if k is not None else "INTERNAL_SYMBOL"] = c.lineno
+    if len(produced) < 2:
+        raise AnalysisError(f"only {sorted(produced)} import-graph edge kinds found at add_import_graph_edge call sites")
+    # the statement that computes the children of a matched node
+    desc = []
+    for n in walk_no_nested(f.node):
+        if isinstance(n, ast.Assign) and isinstance(n.value, ast.Call) and (call_name(n.value) or "").startswith("util.graph_successors"):
+            strict = None
+            par = _enclosing_if(f.node, n)
+            if par is not None and "strict" in norm(par.test):
+                strict = n in par.body if not isinstance(par.test, ast.UnaryOp) else n not in par.body
+            cn = call_name(n.value)
+            kinds = None
+            if cn.endswith("_with_weight"):
+                kinds = {_attr_tail(a) for a in n.value.args[2:]} | {_attr_tail(k.value) for k in n.value.keywords}
+            desc.append((n, strict, kinds))
+    if not desc:
+        raise AnalysisError(f"{f.ref}: the statement that reads the successors of a matched node was not found")
+    for n, strict, kinds in desc:
+        mode = "strict mode" if strict else "default mode"
+        for k, ln in sorted(produced.items()):
+            key = f"{where}::{mode}: edges of kind {k} are followed"
+            if kinds is None or k in kinds:
+                rep.holds(RID, key, IH, n.lineno, "unfiltered successors" if kinds is None else f"kind listed in `{norm(n.value)[:80]}`")
+            elif k in EDGE_KINDS_NOT_FOLLOWED_OK:
+                rep.info(RID, key, IH, n.lineno, EDGE_KINDS_NOT_FOLLOWED_OK[k])
+            elif strict:
+                rep.info(RID, key, IH, n.lineno, "strict parse mode (opt-in) deliberately descends only into a module's own symbols")
+            else:
+                rep.violation(RID, key, IH, n.lineno,
+                              f"descending an import path only follows {sorted(x for x in kinds if x)} edges, but the import graph also has "
+                              f"{k} edges (added at line {ln} for names a module imports itself): `from util import f` no longer resolves "
+                              f"when util only re-exports f from a third module -- moving a function behind a re-export changes the call graph")
+
+
+def _enclosing_if(root, node) -> Optional[ast.If]:
+    enc = enclosing_map(root)
+    cur = node
+    while id(cur) in enc:
+        cur = enc[id(cur)]
+        if isinstance(cur, ast.If):
+            return cur
+    return None
+
+
 # ---------------------------------------------------------------------------------------------- self-test
 MUTANTS = [
+    ("closures re-homed to the class", SH,
+     lambda s: M.text_replace(s, "                    if method_decl.parent_stmt_id == stmt.methods:\n                        # 只处理直接属于class的methods，不处理嵌套在其他method内部的闭包methods\n                        item = self.scope_space.find_first_by_id(method_decl.stmt_id)\n                        item.scope_id = stmt_id\n                        self.stmt_id_to_scope_id_cache[method_decl.stmt_id] = stmt_id",
+                              "                    if True:\n                        item = self.scope_space.find_first_by_id(method_decl.stmt_id)\n                        item.scope_id = stmt_id\n                        self.stmt_id_to_scope_id_cache[method_decl.stmt_id] = stmt_id"),
+     "re-home class_stmt_ids -> method_decl::direct children only"),
+    ("nested-nested classes re-homed to the outer class", SH,
+     lambda s: M.text_replace(s, "                    if class_decl.parent_stmt_id != stmt.nested:\n", "                    if False:\n"),
+     "re-home class_stmt_ids -> class_decl::direct children only"),
+    ("latest declaration wins", RS,
+     lambda s: M.text_replace(s, "nearest_scope_id = max(target_scope_ids)",
+                              "nearest_scope_id = max(target_scope_ids, key = lambda scope_id: unit_symbol_decl_summary.scope_id_to_symbol_info[scope_id][symbol_name])"),
+     "innermost visible declaring scope"),
+    ("on-demand import analysis dropped", IH,
+     lambda s: M.text_replace(s, "                    if candidate_node.symbol_type == LIAN_SYMBOL_KIND.UNIT_SYMBOL:\n                        self.analyze_unit_import_stmts(candidate_node.symbol_id)\n", ""),
+     "a matched module's imports are analysed on demand"),
+    ("re-export edges not followed", IH,
+     lambda s: M.text_replace(s, "                    children_list = util.graph_successors(self.import_graph, candidate_node.symbol_id)",
+                              "                    children_list = util.graph_successors_with_weight(self.import_graph, candidate_node.symbol_id, IMPORT_GRAPH_EDGE_KIND.INTERNAL_SYMBOL)"),
+     "default mode: edges of kind EXTERNAL_SYMBOL are followed"),
     ("variable owner = parent statement", SH,
      lambda s: M.text_replace(s, "elif row.operation in VARIABLE_DECL_OPERATION:\n                scope_id = self.determine_scope(row.parent_stmt_id)",
                               "elif row.operation in VARIABLE_DECL_OPERATION:\n                scope_id = row.parent_stmt_id"),
